@@ -454,6 +454,10 @@ class Circuit:
                 ll.driver = node_map[l.driver]
                 ll.driver_pin = l.driver_pin
             ll.driver.outs[ll.driver_pin] = ll
+        for n in node_map.values():  # an unconnected output pin may leave a gap in the outputs of a copied fork
+            if n.kind == '__fork__' and any(l is None for l in n.outs):
+                n.outs = GrowingList(l for l in n.outs if l is not None)
+                for i, l in enumerate(n.outs): l.driver_pin = i
         own_nodes = set(node_map.values())
         for n in dangling:  # only now: logic shared with a connected output has its reader and stays
             if n.circuit is not None: self.remove_dangling_nodes(n, own_nodes)
